@@ -9,20 +9,22 @@
   stale bytes are never observed; all theorems about `tryRead` transfer to `tryRead00`.
 -/
 import MicroHttp.Conn00
+import MicroHttp.Proofs.Buffer
 namespace MicroHttp.C01
 open MicroHttp
 variable {RL H : Type}
 
 theorem new00_abs (P : Params RL H) (L : Nat) :
     (Conn00.new P L).abs = (Conn.new L : Conn RL H) ∧ (Conn00.new P L).WF P := by
-  sorry
+  refine ⟨rfl, ?_, Nat.zero_le _⟩
+  simp [Conn00.new]
 
 /-- One `try_read` on the concrete buffer = one `try_read` on the window model. -/
 theorem tryRead00_simulates (P : Params RL H) (c : Conn00 RL H) (hwf : c.WF P) (inp : Recv) :
     (tryRead00 P c inp).2 = (tryRead P c.abs inp).2 ∧
     (tryRead00 P c inp).1.abs = (tryRead P c.abs inp).1 ∧
-    (tryRead00 P c inp).1.WF P := by
-  sorry
+    (tryRead00 P c inp).1.WF P :=
+  tryRead00_sim P c hwf inp
 
 /-- … hence for every sequence of reads from a new connection. -/
 def runReads00 (P : Params RL H) : Conn00 RL H → List Recv → Conn00 RL H × List ReadOut
@@ -42,20 +44,36 @@ def runReads0 (P : Params RL H) : Conn RL H → List Recv → Conn RL H × List 
 theorem reads00_simulate (P : Params RL H) (L : Nat) (inputs : List Recv) :
     (runReads00 P (Conn00.new P L) inputs).2 = (runReads0 P (Conn.new L) inputs).2 ∧
     (runReads00 P (Conn00.new P L) inputs).1.abs = (runReads0 P (Conn.new L) inputs).1 := by
-  sorry
+  have key : ∀ (inputs : List Recv) (c : Conn00 RL H), c.WF P →
+      (runReads00 P c inputs).2 = (runReads0 P c.abs inputs).2 ∧
+      (runReads00 P c inputs).1.abs = (runReads0 P c.abs inputs).1 := by
+    intro inputs
+    induction inputs with
+    | nil => intro c _; exact ⟨rfl, rfl⟩
+    | cons i is ih =>
+      intro c hwf
+      obtain ⟨h1, h2, h3⟩ := tryRead00_simulates P c hwf i
+      obtain ⟨ih1, ih2⟩ := ih (tryRead00 P c i).1 h3
+      simp only [runReads00, runReads0]
+      rw [h2] at ih1 ih2
+      exact ⟨by rw [h1, ih1], ih2⟩
+  have h0 := new00_abs P L
+  have := key inputs (Conn00.new P L) h0.2
+  rw [h0.1] at this
+  exact this
 
 /-- the in-place copy loop of `shift_buffer_left` moves the carried bytes to the front … -/
 theorem copyLoop_spec (buf : List Byte) (start delta : Nat) (h : start + delta ≤ buf.length) :
     (copyLoop start (List.range delta) buf).take delta = (buf.drop start).take delta ∧
-    (copyLoop start (List.range delta) buf).length = buf.length := by
-  sorry
+    (copyLoop start (List.range delta) buf).length = buf.length :=
+  copyLoop_range_spec buf start delta h
 
 /-- … and the zero-fill loop clears exactly `[a, b)`. -/
 theorem zeroLoop_spec (buf : List Byte) (a b : Nat) (h : b ≤ buf.length) :
     (zeroLoop (rangeFrom a b) buf).take a = buf.take a ∧
     (zeroLoop (rangeFrom a b) buf).drop b = buf.drop b ∧
     (∀ i, a ≤ i → i < b → (zeroLoop (rangeFrom a b) buf)[i]? = some 0) ∧
-    (zeroLoop (rangeFrom a b) buf).length = buf.length := by
-  sorry
+    (zeroLoop (rangeFrom a b) buf).length = buf.length :=
+  zeroLoop_rangeFrom_spec buf a b h
 
 end MicroHttp.C01
